@@ -57,7 +57,8 @@ fn steady_main(baseline: u64, args: &mut dyn Iterator<Item = &'static str>) -> i
         if threads == 1 {
             let mut g = Global;
             let mut slots: Vec<Slot> = Vec::with_capacity(p.live);
-            unsafe { steady_rep(&mut g, &p, seed ^ rep, &mut slots, &mut st, &mut |_| print_sample(0)) };
+            let mut extra: Vec<Slot> = Vec::with_capacity(STEADY_PRIMER_TRIES + 2);
+            unsafe { steady_rep(&mut g, &p, seed ^ rep, &mut slots, &mut extra, &mut st, &mut |_| print_sample(0)) };
         } else {
             let mut handles = Vec::with_capacity(threads);
             for t in 0..threads {
@@ -65,12 +66,13 @@ fn steady_main(baseline: u64, args: &mut dyn Iterator<Item = &'static str>) -> i
                     let mut g = Global;
                     let mut st = RepStats::default();
                     let mut slots: Vec<Slot> = Vec::with_capacity(p.live);
+                    let mut extra: Vec<Slot> = Vec::with_capacity(STEADY_PRIMER_TRIES + 2);
                     let s = seed ^ rep ^ ((t as u64) << 32);
                     unsafe {
                         if t == 0 {
-                            steady_rep(&mut g, &p, s, &mut slots, &mut st, &mut |_| print_sample(0));
+                            steady_rep(&mut g, &p, s, &mut slots, &mut extra, &mut st, &mut |_| print_sample(0));
                         } else {
-                            steady_rep(&mut g, &p, s, &mut slots, &mut st, &mut |_| {});
+                            steady_rep(&mut g, &p, s, &mut slots, &mut extra, &mut st, &mut |_| {});
                         }
                     }
                     st
@@ -87,6 +89,7 @@ fn steady_main(baseline: u64, args: &mut dyn Iterator<Item = &'static str>) -> i
                         st.churned += s.churned;
                         st.calls += s.calls;
                         st.failed += s.failed;
+                        st.primed += s.primed;
                     }
                     None => st.failed += 1,
                 }
@@ -96,10 +99,11 @@ fn steady_main(baseline: u64, args: &mut dyn Iterator<Item = &'static str>) -> i
         total.churned += st.churned;
         total.calls += st.calls;
         total.failed += st.failed;
+        total.primed += st.primed;
         print_sample(st.failed);
     }
     marker::end(4, 1, 0, 0, 0);
-    tiny_std::println!("S {} {} {}", total.peak_live, total.churned, total.calls);
+    tiny_std::println!("S {} {} {} {}", total.peak_live, total.churned, total.calls, total.primed);
     0
 }
 
